@@ -220,10 +220,10 @@ func RunC09(tier string, args []string) int {
 	}
 	// schedule scenarios
 	bound, maxExec := 2, 200000
-	sdeadline := time.Now().Add(100 * time.Second)
+	perScenario, nshards := 100*time.Second, 16
 	if tier == "thorough" {
-		bound, maxExec = 3, 10000000
-		sdeadline = time.Now().Add(20 * time.Minute)
+		bound, maxExec = 4, 10000000
+		perScenario, nshards = 20*time.Minute, 32
 	}
 	var reports []schedReport
 	execs, points := 0, 0
@@ -234,7 +234,7 @@ func RunC09(tier string, args []string) int {
 			if disk && tier != "thorough" {
 				b = 1
 			}
-			outs := runWorkers("C09", sc.Name, b, maxExec/16+1, sdeadline, 16)
+			outs := runWorkers("C09", sc.Name, b, maxExec/nshards+1, time.Now().Add(perScenario), nshards)
 			rep := mergeWorkerOuts(chk, sc.Name, outs)
 			reports = append(reports, rep)
 			execs += rep.Executions
